@@ -398,7 +398,8 @@ FULL = dom()
 ALLOC_FULL = dom(wins=(False,))
 SMALL = dom(precs=["f32", "f64"])
 SMALL2 = dom(precs=["f32", "f64"], mems=["DRAM", "DRAM_STACK", "AVX2", "T_WO", "T_RO"])
-TINY = dom(precs=["R", "f32", "f64"], mems=["DRAM", "DRAM_STACK", "AVX2", "T_RO"])
+MID = dom(precs=["R", "f32", "f64", "i8"])
+TINY = dom(precs=["R", "f32", "f64"], mems=["DRAM", "AVX2", "T_RO"])
 TINY2 = dom(precs=["f32", "f64"], mems=["DRAM", "T_RO"])
 
 CALL_BODIES = {
@@ -423,8 +424,8 @@ def skeletons(quick):
     out = []
     for cal in ("aaa_sub", "zzz_sub"):
         for bk, body in CALL_BODIES.items():
-            full = (cal == "aaa_sub" and bk == "none") or not quick
-            d = FULL if full else SMALL2
+            full = (cal == "aaa_sub" and bk == "none")
+            d = FULL if full else (SMALL2 if quick else MID)
             out.append(dict(
                 name=f"call1/{bk}/{cal}",
                 src=f'''
@@ -434,16 +435,16 @@ def {cal}(n: size, a: f32[n], b: f32[n]):
         {body}
 
 @proc
-def main(n: size, x: f32[n], y: f32[n]):
+def mmm(n: size, x: f32[n], y: f32[n]):
     {cal}(n, x, y)
 ''',
-                order=[cal, "main"], top="main",
-                sites=[("main", "x", d), (cal, "a", d)],
-                calls=[("main", cal)],
+                order=[cal, "mmm"], top="mmm",
+                sites=[("mmm", "x", d), (cal, "a", d)],
+                calls=[("mmm", cal)],
             ))
     for fk, form in EXPR_FORMS.items():
-        full = (fk == "mul_add_const") or not quick
-        d = FULL if full else SMALL2
+        full = (fk == "mul_add_const")
+        d = FULL if full else (SMALL2 if quick else MID)
         out.append(dict(
             name=f"expr/{fk}",
             src=f'''
@@ -467,7 +468,7 @@ def asg(n: size, x: f32[n], z: f32[n], r: f32[n]):
         r[i] += x[i]
 ''',
         order=["asg"], top="asg",
-        sites=[("asg", "x", SMALL if not quick else dom(precs=["f32", "f64"], mems=["DRAM", "AVX2", "T_WO"], wins=(False,))),
+        sites=[("asg", "x", SMALL2 if not quick else dom(precs=["f32", "f64"], mems=["DRAM", "AVX2", "T_WO"], wins=(False,))),
                ("asg", "z", FULL if not quick else dom(wins=(False,))),
                ("asg", "r", dom(precs=["f32"], wins=(False,)))],
         calls=[],
@@ -572,7 +573,7 @@ def top(n: size, x: f32[2 * n], y: f32[n]):
     leaf(n, x[n:2 * n], y)
 ''',
             order=["leaf", "top"], top="top",
-            sites=[("top", "x", FULL if not quick else SMALL2), ("leaf", "a", FULL if not quick else SMALL2)],
+            sites=[("top", "x", MID if not quick else SMALL2), ("leaf", "a", MID if not quick else SMALL2)],
             calls=[("top", "leaf")],
         ))
         out.append(dict(
@@ -752,20 +753,57 @@ def exo_bound_names(src):
     return names
 
 
-def classify_gcc(first, stderr, c_text):
-    """key of a gcc failure (one key per root cause; anything unrecognised gets its own message key)"""
-    s = stderr
+VECTOR_MEMS = {"AVX2", "AVX512"}
+
+
+def _vector_buffer_passed(prog):
+    """does some call pass a buffer that lives in a vector-register memory?"""
+    if not prog:
+        return False
+
+    def walk(env, body):
+        for st in body:
+            t = st[0]
+            if t == "call":
+                for a in st[2]:
+                    if a[0] in ("read", "window") and env.get(a[1]) in VECTOR_MEMS:
+                        return True
+            elif t == "for":
+                if walk(env, st[1]):
+                    return True
+            elif t == "if":
+                if walk(env, st[1]) or walk(env, st[2]):
+                    return True
+            elif t == "alloc":
+                env[st[1]] = st[3]
+            elif t == "win":
+                a = st[2]
+                if a[0] in ("read", "window") and a[1] in env:
+                    env[st[1]] = env[a[1]]
+        return False
+
+    for p in prog["procs"]:
+        env = {q[0]: q[3] for q in p["params"] if q[1] == "data"}
+        if walk(env, p["body"]):
+            return True
+    return False
+
+
+def classify_gcc(first, stderr, c_text, prog=None):
+    """key of a gcc failure: one key per ROOT CAUSE; anything unrecognised gets a key made of gcc's message"""
+    s = stderr.replace("\u2018", "'").replace("\u2019", "'")
+    first = first.replace("\u2018", "'").replace("\u2019", "'")
     if "array subscript is not an integer" in s:
         return "codegen:index-constant-folded-with-float-division"
-    m = re.search(r"expected '(?:const )?struct (exo_win_\w+?)c' but argument is of type 'struct (exo_win_\w+)'", s)
-    if m and m.group(1) == m.group(2):
+    m = re.search(r"expected 'struct (exo_win_\w+)' but argument is of type 'struct (exo_win_\w+)'", s)
+    if m and (m.group(1) == m.group(2) + "c" or m.group(2) == m.group(1) + "c"):
         return "codegen:window-variable-const-struct-mismatch-at-call"
-    if re.search(r"expected '[^']*\*' but argument is of type 'struct exo_win_\w+'", s):
+    if re.search(r"expected '[^']*\*'(?: \{aka '[^']*'\})? but argument is of type 'struct exo_win_\w+'", s):
         return "set_window:stale-read-type:window-passed-as-dense-tensor"
-    if re.search(r"__m(256|512)[di]?\b", s) or re.search(r"__vector\(\d+\)", s) or "vector" in first:
+    if re.search(r"(array size missing in|storage size of) '\w+'", s) and re.search(r"^\s*(static )?\w+ \w+\[\];", c_text, re.M):
+        return "codegen:scalar-alloc-in-DRAM_STACK-or-DRAM_STATIC"
+    if _vector_buffer_passed(prog) and ("incompatible" in first):
         return "codegen:vector-memory-buffer-passed-to-non-instr-proc"
-    if "assignment of read-only location" in s or "read-only" in first:
-        return "codegen:write-through-const-window-struct"
     return "gcc:" + re.sub(r"'[^']*'", "'_'", first)[:100]
 
 
@@ -821,13 +859,21 @@ def worker_chunk(args):
             irs = {id(p): p for p in find_all_subprocs([top._loopir_proc])}
             # per-proc stages in the order of prog["procs"]
             per = []
+            smemo = _W.setdefault("stage_memo", {})
+            if len(smemo) > 50000:
+                smemo.clear()
             name_to_ir = {}
             for p in irs.values():
                 name_to_ir.setdefault(p.name, []).append(p)
             for pj in prog["procs"]:
                 cands = name_to_ir.get(pj["name"], [])
                 if len(cands) == 1 and not pj["instr"]:
-                    per.append(real_stages(cands[0]))
+                    ir = cands[0]
+                    hit = smemo.get(id(ir))
+                    if hit is None or hit[0] is not ir:
+                        hit = (ir, real_stages(ir))      # the IR object is kept alive with its verdict
+                        smemo[id(ir)] = hit
+                    per.append(hit[1])
                 else:
                     per.append(None)
             rec["per"] = per
